@@ -78,7 +78,8 @@ class TestRequest : public BusRequest {
     e.id = m_id;
     e.a = sim::RQ_NOTIFY;
     bool restart = false;
-    if (m_restarts > 0) { m_restarts--; restart = true; }
+    // like PollRequest/ScanRequest: never ask for a restart when the signal is lost (the handler drains the queue then)
+    if (m_restarts > 0 && result != RESULT_ERR_NO_SIGNAL) { m_restarts--; restart = true; }
     e.b = result;
     e.bytes = toBytes(slave);
     e.s = restart ? "restart" : "final";
@@ -154,6 +155,14 @@ class TapHandler : public DirectProtocolHandler {
  public:
   TapHandler(const ebus_protocol_config_t config, Device* device, ProtocolListener* listener)
       : DirectProtocolHandler(config, device, listener) {}
+  void notifyDeviceData(const symbol_t* data, size_t len, bool received) override {
+    // per symbol marker: tells the oracles at which point of the history ebusd's protocol layer got each symbol
+    for (size_t i = 0; i < len; i++) {
+      sim::Ev& e = g->rd.hist.add(now(), received ? sim::EV_RXSYM : sim::EV_TXSYM);
+      e.a = data[i];
+    }
+    DirectProtocolHandler::notifyDeviceData(data, len, received);
+  }
   void notifyDeviceStatus(bool error, const char* message) override {
     sim::Ev& e = g->rd.hist.add(now(), sim::EV_DEVSTATUS);
     e.a = error ? 1 : 0;
